@@ -47,6 +47,7 @@ class Monitor:
         self.window = False
         self.events = []
         self.exit_calls = []
+        self.dunder = []
         self.installed = False
 
     def install(self):
@@ -95,6 +96,7 @@ class Monitor:
         """returns (result|None, exception|None, attributed events, exit calls)"""
         self.events = []
         self.exit_calls = []
+        self.dunder = []
         self.window = True
         try:
             try:
@@ -106,6 +108,36 @@ class Monitor:
 
 
 MON = Monitor()
+
+
+def _probe_getattribute(base):
+    def __getattribute__(self, name):
+        # an explicit attribute lookup (LOAD_ATTR, getattr, the field names of str.format) goes through here; the interpreter's implicit
+        # special-method lookups go through the type's slots and do not.  Attributed like audit events: by the frame that asked.
+        if name.startswith('__') and MON.window:
+            try:
+                f = sys._getframe(1)
+            except ValueError:
+                f = None
+            if f is not None and f.f_code.co_filename == '<string>':
+                MON.dunder.append(name)
+        return base.__getattribute__(self, name)
+    return __getattribute__
+
+
+class PStr(str):
+    """an AST value that reports dunder attribute lookups made on it by expression code"""
+    __slots__ = ()
+    __getattribute__ = _probe_getattribute(str)
+
+
+class PInt(int):
+    __slots__ = ()
+    __getattribute__ = _probe_getattribute(int)
+
+
+def probes():
+    return {'n': PStr('abc'), 'k': PInt(3)}
 
 
 # ------------------------------------------------------------------ expression generation
@@ -138,6 +170,19 @@ def gen_expr(rnd, names):
                            '(lambda f: f())(lambda: {})', 'next(iter([{}]))', 'max([{}], key=lambda v: 0)'])
         return wrap.replace('{}', inner), ('wrapped',) + tag
     if r < 0.62:
+        if rnd.random() < 0.4:
+            # attribute navigation written in a *format string*: no Attribute node for the safety walk to see
+            fld = rnd.choice(['0.__class__', '0.__class__.__mro__', '0.__init__.__globals__', '0.__doc__', '0.__class__.__base__.__subclasses__', '0[0].__class__',
+                              '0.real.__class__', '0.__dir__', '0.__reduce__', 'x.__class__', '0.__len__', '0.__eq__'])
+            fmt = rnd.choice(['{%s}', 'a{%s}b', '{%s!r}', '{%s:>9}', '{0:{%s}}', '{0}{%s}'])  % fld
+            arg = rnd.choice(['n', 'k', '[n]', 'n, k', 'k, n'])
+            d = rnd.choice(['%r.format(%s)' % (fmt, arg), '%r.format_map({"x": %s, "0": %s})' % (fmt.replace('0', 'x'), arg.split(',')[0], arg.split(',')[0]),
+                            '(%r).format(*[%s])' % (fmt, arg), 'list(map(%r.format, [%s]))' % (fmt, arg), '(lambda f: f(%s))(%r.format)' % (arg, fmt),
+                            '(%r + "").format(%s)' % (fmt, arg), '%r.strip().format(%s)' % (fmt, arg), '"{0}".format(%s)' % arg])
+            if rnd.random() < 0.25:
+                # the format string is an AST *value* (text taken from the input); the grammar's expression looks innocent
+                return rnd.choice(['n.format(k)', 'n.format(n, k)', 'n.format_map({"x": k})', '(n + "").format(k)', 'n.strip().format(k, n)']), ('format-trick', fld, fmt)
+            return d, ('format-trick', fld)
         d = rnd.choice(["''.join(['__cl', 'ass__'])", "'__' + 'import' + '__'", "'{0.__class__}'.format(n)", "'%s' % n.__class__", 'n.format.__self__',
                         "n.__class__.__base__.__subclasses__()", "(1).__class__.__mro__[-1]", "[].__class__.__base__", "print.__self__",
                         "len.__self__.open('/etc/hostname')", "len.__self__.__import__('os')", "sorted.__self__.eval('1')"])
@@ -188,7 +233,7 @@ def check_direct(expr, ctxvals):
     from tatsu.util import safeeval
     MON.install()
     ctx = dict(safeeval.safe_builtins())
-    ctx.update(ctxvals)
+    ctx.update({k: (PStr(v) if type(v) is str else PInt(v) if type(v) is int else v) for k, v in ctxvals.items()})
     info = {}
 
     def run():
@@ -210,6 +255,9 @@ def check_direct(expr, ctxvals):
         return dict(bucket=f'direct:{exits[0]}-called', oracle='evaluation never exits the process', expression=expr), info
     if isinstance(exc, SystemExit):
         return dict(bucket='direct:SystemExit', oracle='evaluation never exits the process', expression=expr), info
+    if MON.dunder:
+        return dict(bucket='direct:dunder-reached', oracle='evaluation never reaches dunder attributes (attribute lookups on the AST values, observed at run time)',
+                    expression=expr, attributes=sorted(set(MON.dunder))), info
     if exc is not None and not isinstance(exc, Blocked):
         info['exc'] = type(exc).__name__
         return None, info
@@ -258,12 +306,23 @@ def parser_model(kind, shadow):
     return key, _models
 
 
-def check_parser(expr, kind, shadow):
+class ProbeSemantics:
+    """hands the engine AST values that report dunder lookups (an action's result is the rule's value)"""
+    def nn(self, ast):
+        return PStr(ast)
+
+    def kk(self, ast):
+        return PInt(ast)
+
+
+def check_parser(expr, kind, shadow, probe=False):
     """through a real parse: constant or alert"""
     import tatsu
     from tatsu.exceptions import TatSuException
     MON.install()
     first = f"{shadow}='abc'" if shadow else "n='abc'"
+    if probe and not shadow:
+        return check_parser_probe(expr, kind)
     body = '`' + expr + '`'
     if '`' in expr or '\n' in expr:
         return None, {'skip': 'backtick'}
@@ -300,6 +359,42 @@ def check_parser(expr, kind, shadow):
         if dunder and res.get('c') != expr and not shadow:
             return dict(bucket='parser:const:dunder-evaluated', oracle='an expression that reaches dunder attributes is left as uninterpreted text',
                         expression=expr, grammar=g, observed=repr(res.get('c'))[:200]), info
+    return None, info
+
+
+def check_parser_probe(expr, kind):
+    """the same parse with AST values that are probes: n and k are the values of rules whose actions return PStr / PInt"""
+    import tatsu
+    from tatsu.exceptions import TatSuException
+    body = '`' + expr + '`'
+    if '`' in expr or '\n' in expr:
+        return None, {'skip': 'backtick'}
+    tail = f"^{body}" if kind == 'alert' else f"c={body}"
+    g = f"start: n=nn k=kk {tail} $ ;\nnn: 'abc' ;\nkk: `3` ;\n"
+    info = {}
+    try:
+        m = tatsu.compile(g, name='P17')
+    except Exception as e:
+        info['skip'] = f'compile: {type(e).__name__}'
+        return None, info
+
+    def run():
+        with watchdog(10):
+            return m.parse('abc', semantics=ProbeSemantics())
+    res, exc, events, exits = MON.run(run)
+    dunder = sorted(set(MON.dunder))
+    if events:
+        return dict(bucket=f'parser:{kind}:event:{events[0]}', oracle='no file/import/exec/compile/input/os event is attributed to a grammar constant',
+                    expression=expr, grammar=g, events=events), info
+    if exits or isinstance(exc, SystemExit):
+        return dict(bucket=f'parser:{kind}:exit', oracle='a grammar constant never exits the process', expression=expr, grammar=g), info
+    if dunder:
+        return dict(bucket=f'parser:{kind}:dunder-reached', oracle='a grammar constant never reaches dunder attributes (lookups on the AST values, observed at run time)',
+                    expression=expr, grammar=g, attributes=dunder), info
+    if exc is not None and not isinstance(exc, (TatSuException, Blocked, CaseTimeout)):
+        return dict(bucket=f'parser:{kind}:raises:{type(exc).__name__}', oracle='a rejected expression is left as text or reported as a semantic failure',
+                    expression=expr, grammar=g, observed=f'{type(exc).__name__}: {str(exc)[:150]}'), info
+    info['outcome'] = 'ok' if exc is None else type(exc).__name__
     return None, info
 
 
@@ -344,9 +439,16 @@ def run_shard(sh, n):
             cls.append(f'builtin:{tag[1]}')
         d = None
         info = {}
+        probe = False
+        nval = 'abc'
         if tag == ('safe',) and route == 'direct':
             d = check_positive(expr, {'n': 'abc', 'k': 3})
             cls.append('positive')
+        elif tag[0] == 'format-trick' and len(tag) == 3:
+            route = 'direct'
+            nval = tag[2]
+            cls.append('format-string-is-a-value')
+            d, info = check_direct(expr, {'n': nval, 'k': 3})
         elif route == 'direct':
             # f-string bodies reach the sandbox wrapped the way the engine wraps them: f'<text>'
             if tag[0] == 'fstring':
@@ -368,16 +470,19 @@ def run_shard(sh, n):
                 route = 'shadow-direct'
                 d, info = check_direct(e2, {'n': 'abc', 'k': 3, sname: 'abc'})
         else:
-            d, info = check_parser(expr, route.split(':')[1], None)
+            probe = rnd.random() < 0.5
+            if probe:
+                cls.append('probe-values')
+            d, info = check_parser(expr, route.split(':')[1], None, probe=probe)
         if info.get('skip'):
             sh.note('skipped: ' + info['skip'])
             return
         if 'safe' in info:
             cls.append('eval-safe' if info['safe'] else 'rejected')
-        sh.case((expr, route), nontriv, cls, sample=dict(expression=expr, route=route, info={k: v for k, v in info.items() if k != 'skip'}))
+        sh.case((expr, route, nval), nontriv, cls, sample=dict(expression=expr, route=route, info={k: v for k, v in info.items() if k != 'skip'}))
         if d is not None:
             sh.fail(d['bucket'], dict(expr=expr, route=route, shadow=expr if route.startswith('shadow') else None,
-                                      sname=sname if route.startswith('shadow') else None), d)
+                                      sname=sname if route.startswith('shadow') else None, probe=probe, nval=nval, positive='positive' in cls), d)
     # two-step histories (first, while this process has evaluated nothing else)
     if sh.index == 0:
         for sname, sval, probe in [('password', 'hunter2', '{password}'), ('token', 'tk9', 'token'), ('secret', 's3cr3t', 'x{secret}y'), ('pw', 'zz9', '{pw!r}')]:
@@ -394,9 +499,12 @@ def replay(case):
     if r == 'history':
         return check_history(case['name'], case['value'], case['probe'])
     if r == 'direct':
-        d, _ = check_direct(case['expr'], {'n': 'abc', 'k': 3})
-        if d is None:
-            d = check_positive(case['expr'], {'n': 'abc', 'k': 3}) if has_dunder_attr(case['expr']) is False and not impure_calls(case['expr'], {'n', 'k'}) else None
+        d, _ = check_direct(case['expr'], {'n': case.get('nval', 'abc'), 'k': 3})
+        positive = case.get('positive')
+        if positive is None:   # replay files written before the key existed
+            positive = has_dunder_attr(case['expr']) is False and not impure_calls(case['expr'], {'n', 'k'}) and 'format' not in case['expr']
+        if d is None and positive:
+            d = check_positive(case['expr'], {'n': 'abc', 'k': 3})
         return d
     if r in ('shadow', 'shadow-direct'):
         sname = case.get('sname') or next((s for s in SHADOW_NAMES if case['expr'].startswith(s) or '{' + s in case['expr'] or s + '(' in case['expr']), 'open')
@@ -405,7 +513,7 @@ def replay(case):
             return d
         d, _ = check_parser(case['expr'], 'const', sname)
         return d
-    d, _ = check_parser(case['expr'], r.split(':')[1], None)
+    d, _ = check_parser(case['expr'], r.split(':')[1], None, probe=bool(case.get('probe')))
     return d
 
 
